@@ -1537,7 +1537,7 @@ func genSpecdiff(r *rng) string {
 		g.openSess = 0
 		if strings.HasPrefix(c, "(trim") || strings.HasPrefix(c, "(start") ||
 			strings.HasPrefix(c, "(commit") || strings.HasPrefix(c, "(abort") || strings.HasPrefix(c, "(end") ||
-			strings.HasPrefix(c, "(createColl") || strings.HasPrefix(c, "(createMany") || strings.HasPrefix(c, "(list") && !strings.HasPrefix(c, "(listIndexes") {
+			strings.HasPrefix(c, "(listDbs") || strings.HasPrefix(c, "(listColls") && strings.Contains(c, " "+hx("local")+" ") {
 			continue
 		}
 		parts = append(parts, c)
